@@ -39,6 +39,8 @@ def partition(draw, d):
         gl = [list(range(j, d, k))[::draw(st.sampled_from([1, 1, -1]))] for j in range(k)]
     else:
         gl = [list(draw(st.permutations(g))) for g in groups.values()]  # indices inside a group come in any order
+    if draw(st.integers(0, 7)) == 0:
+        gl.append([])  # a group without any feature
     perm = draw(st.permutations(range(len(gl))))
     return [gl[i] for i in perm]
 
@@ -97,6 +99,8 @@ def oracle_linear(case):
     zeroed = kept = 0
     rs = np.random.RandomState(case["comp_seed"])
     for g in gl:
+        if len(g) == 0:
+            continue  # a group without features has nothing to shrink
         w = W[g]
         z = out[g]
         ref = prox_ref.group_lasso_prox(w, alpha)
@@ -151,6 +155,8 @@ def oracle_mlp(case):
     gl = [[i] for i in range(len(V))] if groups is None else groups
     # stated scope: a group with zero skip weights is in scope only if its hidden weights are zero too and alpha>0
     for g in gl:
+        if len(g) == 0:
+            continue  # a group without features has nothing to shrink
         if not np.any(V[g] != 0.0):
             U[g] = 0.0
             if alpha == 0.0:
@@ -172,6 +178,8 @@ def oracle_mlp(case):
     rs = np.random.RandomState(case["comp_seed"])
     clipped = zeroed = kept = 0
     for g in gl:
+        if len(g) == 0:
+            continue  # a group without features has nothing to shrink
         v, u, b, t = V[g], U[g], B[g], T[g]
         if not (np.all(np.isfinite(b)) and np.all(np.isfinite(t))):
             raise Violation(f"group {g}: non-finite result beta={b.tolist()} theta={t.tolist()}")
